@@ -82,7 +82,8 @@ def run(spec):
     ths = build_threads(w, progs)
     T = len(ths)
     chunks, free = plan_for(spec, T)
-    M = bmc.Model(spec["cap"], ths, chunks, hb=(kind == "hb"), dofs=w.dofs, spurious=spec.get("spurious", 1))
+    M = bmc.Model(spec["cap"], ths, chunks, hb=(kind == "hb"), dofs=w.dofs, spurious=spec.get("spurious", 1),
+                  spawner=(0 if spec.get("init", "fresh") == "fresh" else None))
     M.build()
     K = M.K
     inv = None
@@ -196,6 +197,11 @@ def run(spec):
             v = chunks[free[0]][0]
             kc = sum(n for (_, n) in chunks[: free[0] + 1])
             r4, _ = ask("reach: victim dies inside an operation", [z3.Not(M.finished(kc, v)), z3.UGT(M.pc[kc][v], 0)])
+            res["reach_interference"] = r4
+        elif kind == "hb":
+            # the hand-over really happens: the witness byte is written by one thread after another thread wrote it
+            ho = [z3.And(M.H[k]["lw_t"] != 255, M.H[k + 1]["lw_t"] != M.H[k]["lw_t"]) for k in range(K)]
+            r4, _ = ask("reach: a byte written by one thread is written by another later", [z3.Or(ho)])
             res["reach_interference"] = r4
         elif len(conc) > 1:
             inter = []
